@@ -19,6 +19,8 @@ fn presented(kind: &str, session: u64, serial0: u32) -> Option<Option<(u64, u32)
     Some(match kind {
         "current" => Some((session, serial0)),
         "older" => Some((session, serial0.wrapping_sub(1))),
+        "older2" => Some((session, serial0.wrapping_sub(2))),
+        "older3" => Some((session, serial0.wrapping_sub(3))),
         "next" => Some((session, serial0.wrapping_add(1))),
         "other-session" => Some((session + 1, serial0)),
         "none" => None,
@@ -165,6 +167,14 @@ pub fn generated_inputs(ctx: &Ctx) -> Vec<Value> {
         // presented becomes current by the update, then blocks
         json!({"prelude": [a], "runs": [b], "presented": "next"}),
     ];
+    // net-zero change sequences installed before the request arrives: the data at the presented
+    // (older) serial equals the served data, the version does not — the request must not wait
+    res.push(json!({"prelude": [a, b, a], "runs": [a], "presented": "older2"}));
+    res.push(json!({"prelude": [a, b, a], "runs": [a], "presented": "older"}));
+    res.push(json!({"prelude": [a, b, a], "runs": [a], "presented": "current"}));
+    res.push(json!({"prelude": [a, b, c, a], "runs": [a], "presented": "older3"}));
+    res.push(json!({"prelude": [a, b, c, a], "runs": [a], "presented": "older2"}));
+    res.push(json!({"prelude": [a, b, a], "runs": [b], "presented": "older2"}));
     if !ctx.quick() || ctx.search {
         res.push(json!({"prelude": [a], "runs": [b, b], "presented": "current"}));
         res.push(json!({"prelude": [a], "runs": [a, b], "presented": "current"}));
@@ -217,7 +227,7 @@ pub fn run_c17(ctx: &mut Ctx) {
         let limit = ctx.budget(3_000, 200_000);
         // In the quick tier the scenarios in which the request can never wait
         // (it presents something else than the served version) are sampled.
-        let never_waits = matches!(input["presented"].as_str(), Some("older" | "none"));
+        let never_waits = matches!(input["presented"].as_str(), Some("older" | "older2" | "older3" | "none"));
         if ctx.quick() && !ctx.search && never_waits {
             let mut rng = ctx.rng.fork();
             total += dir.random_schedules(&sc, 40, &mut rng, |res| {
